@@ -230,13 +230,13 @@ def judge_matrix(case, order, labels, matrix, rec, ctx, cap):
     got = np.column_stack([matrix[:, labels.index(c)] for c in order])
     rec.count("matrices_compared")
     dev = np.abs(got - ref).max()
-    if dev > tol:
+    if not dev <= tol:  # NaN-aware
         refmp = K.concentrations_mp(Kmat, j, case["times"])
         rec.count("mpmath_arbitrations")
         dev = np.abs(got - refmp).max()
         ref = refmp
     rec.slack("concentration", dev / tol)
-    if dev > tol:
+    if not dev <= tol:
         i, c = np.unravel_index(np.argmax(np.abs(got - ref)), got.shape)
         path = "closed-form" if cap.get("sequential_path") else "eigen"
         jn = np.asarray(j)
@@ -460,11 +460,11 @@ def check_split(rng, rec, cap):
             continue
         got = np.column_stack([matrix[:, labels.index(c)] for c in bo])
         ref = K.concentrations(Kmat, j, times)
-        if np.abs(got - ref).max() > tol:
+        if not np.abs(got - ref).max() <= tol:
             ref = K.concentrations_mp(Kmat, j, times)
         rec.count("split_blocks_compared")
         dev = float(np.abs(got - ref).max())
-        if dev > tol:
+        if not dev <= tol:
             i, c = np.unravel_index(np.argmax(np.abs(got - ref)), got.shape)
             first_only = bool(j[0] != 0 and (j[1:] == 0).all())
             rec.violation(f"split:concentration-mismatch:{'single-population-not-1' if first_only and j[0] != 1 else 'other'}", ctx,
